@@ -59,6 +59,7 @@ package driver
 //@   ensures count: result4 == nil && atloop(2, nok(sources, len(sources))) > 0 ==> result3 == atloop(2, nok(sources, len(sources)))
 //@   loop 2
 //@     invariant 0 <= $i && $i <= len(sources) && len(profiles) == len(msrcs) && ui != nil
+//@     mustcall invoke.PrintErr failure_reported: $arg0 == ui when atiter(2, sources[i].err != nil)
 //@     invariant cnt: len(profiles) == atloop(2, nok(sources, $i))
 //@     invariant suffix: forall k int :: $i <= k && k < len(sources) ==> sources[k].err == atloop(2, sources[k].err) && sources[k].p == atloop(2, sources[k].p) && sources[k].msrc == atloop(2, sources[k].msrc)
 //@     invariant order: forall k int :: 0 <= k && k < $i && atloop(2, sources[k].err) == nil ==> 0 <= atloop(2, nok(sources, k)) && atloop(2, nok(sources, k)) < len(profiles)
@@ -193,3 +194,12 @@ package driver
 //@   callsite setConfig args: $arg0 == ui.settingsFile
 //@ func webInterface.deleteConfig nosafety
 //@   callsite removeConfig args: $arg0 == ui.settingsFile && $arg1 == name
+
+// ---- C17 (strengthened after seeded change flamegraph-default-granularity-functions): the configuration edit of the
+// flame-graph request. The stack data is built as a call tree, untrimmed, and — unless the request names a
+// granularity — with functions kept apart by file (filefunctions), so equally named functions of different files
+// stay different sources; a granularity given by the request is left alone.
+//@ func webInterface.stackView$1 nosafety
+//@   ensures call_tree: cfg.CallTree && !cfg.Trim
+//@   ensures default_by_file: old(cfg.Granularity) == "" ==> cfg.Granularity == "filefunctions"
+//@   ensures given_kept: old(cfg.Granularity) != "" ==> cfg.Granularity == old(cfg.Granularity)
